@@ -345,7 +345,8 @@ func ErrClass(err error) string {
 // ---------- event log ----------
 
 type Ev struct {
-	Kind string // Has Get Put PutMany Del NewSession Fetch1 FetchN Notify
+	Kind string // Has Get Put PutMany Del NewSession Fetch1 FetchN Notify Foreign
+	In   *Ev    // Foreign: the call that reached ANOTHER block service's blockstore / exchange
 	Cid  *ACid
 	Blk  *ABlk
 	Blks []*ABlk
@@ -355,6 +356,8 @@ type Ev struct {
 
 func (e Ev) Coq() string {
 	switch e.Kind {
+	case "Foreign":
+		return vh.App("EvForeign", e.In.Coq())
 	case "Has", "Get", "Del":
 		return vh.App("Ev"+e.Kind, e.Cid.Coq())
 	case "Put":
@@ -372,6 +375,8 @@ func (e Ev) Coq() string {
 }
 func (e Ev) String() string {
 	switch e.Kind {
+	case "Foreign":
+		return "OTHER-SERVICE:" + e.In.String()
 	case "Has", "Get", "Del":
 		return e.Kind + "(" + e.Cid.String() + ")"
 	case "Put":
@@ -389,9 +394,18 @@ func (e Ev) String() string {
 type evlog struct {
 	mu  sync.Mutex
 	evs []Ev
+	to  *evlog // non-nil: this is the log of the OTHER block service; its calls are recorded in [to] as Foreign
 }
 
-func (l *evlog) add(e Ev) { l.mu.Lock(); l.evs = append(l.evs, e); l.mu.Unlock() }
+func (l *evlog) add(e Ev) {
+	if l.to != nil {
+		l.to.add(Ev{Kind: "Foreign", In: &e})
+		return
+	}
+	l.mu.Lock()
+	l.evs = append(l.evs, e)
+	l.mu.Unlock()
+}
 func (l *evlog) take() []Ev {
 	l.mu.Lock()
 	defer l.mu.Unlock()
@@ -581,7 +595,11 @@ type Config struct {
 }
 
 var exNames = []string{"XNone", "XPlain", "XSess"}
-var pathNames = []string{"PPlain", "PSession", "PCtxSession"}
+var pathNames = []string{"PPlain", "PSession", "PCtxSession", "PForeignCtx", "PForeignSession"}
+
+// NPaths is the number of ways a getter is reached (index into the names above):
+// 3 = bs.GetX(ContextWithSession(ctx, OTHER)), 4 = NewSession(ContextWithSession(ctx, OTHER), bs).GetX
+const NPaths = 5
 
 func (c Config) Coq() string {
 	return fmt.Sprintf("{| cf_al := %s; cf_checkfirst := %s; cf_ex := %s |}", c.Al.Coq(), vh.Bool(c.CheckFirst), exNames[c.Ex])
@@ -637,6 +655,10 @@ type Svc struct {
 	ex    *fakeEx
 	log   *evlog
 	BS    blockservice.BlockService
+	// Other is a second, independent block service (own blockstore, own honest exchange, same
+	// allowlist). Contexts carrying one of ITS sessions are used on BS (paths 3, 4); every call that
+	// reaches its blockstore or exchange is logged as Foreign.
+	Other blockservice.BlockService
 }
 
 func NewSvc(u *Universe, cfg Config) *Svc {
@@ -656,6 +678,23 @@ func NewSvc(u *Universe, cfg Config) *Svc {
 		opts = append(opts, blockservice.WithAllowlist(cfg.Al.Build()))
 	}
 	s.BS = blockservice.New(s.ws, ex, opts...)
+
+	flog := &evlog{to: s.log}
+	ows := &wstore{Blockstore: blockstore.NewBlockstore(dssync.MutexWrap(ds.NewMapDatastore())), u: u, log: flog}
+	oex := &fakeEx{u: u, log: flog}
+	oex.on1 = func(c *ACid) X1 { return X1{Blk: u.Block(c, c.Dig)} }
+	oex.onN = func(ks []*ACid) ([]*ABlk, bool) {
+		r := make([]*ABlk, len(ks))
+		for i, k := range ks {
+			r[i] = u.Block(k, k.Dig)
+		}
+		return r, false
+	}
+	var oexi exchange.Interface = oex
+	if cfg.Ex == 2 {
+		oexi = fakeSessEx{oex}
+	}
+	s.Other = blockservice.New(ows, oexi, opts...)
 	return s
 }
 
@@ -712,6 +751,11 @@ func (s *Svc) Do(op *Op) *Obs {
 		getter = blockservice.NewSession(ctx, s.BS)
 	case 2:
 		gctx = blockservice.ContextWithSession(ctx, s.BS)
+	case 3:
+		gctx = blockservice.ContextWithSession(ctx, s.Other)
+	case 4:
+		gctx = blockservice.ContextWithSession(ctx, s.Other)
+		getter = blockservice.NewSession(gctx, s.BS)
 	}
 	switch op.Kind {
 	case "Add":
